@@ -111,3 +111,21 @@ package scorch
 //@   loop 0: invariant implies(i.segmentOffset < len(i.iterators), i.snapshot.offsets[i.segmentOffset] >= i.snapshot.offsets[old(i.segmentOffset)])
 //@   loop 0: invariant implies(i.segmentOffset < len(i.iterators) && i.segmentOffset > old(i.segmentOffset), i.snapshot.offsets[i.segmentOffset] >= i.snapshot.offsets[old(i.segmentOffset)+1])
 //@   loop 0: decreases len(i.iterators) - i.segmentOffset
+
+// Advance with a forward target: lands at or after the target, still ascending. The re-seek branch
+// (target at or before the current id) is outside C08's contract and is pruned by the precondition.
+//@ assume func fmt.Errorf(format, a)
+//@   pure
+//@ func IndexSnapshotTermFieldReader.Advance
+//@   props C08
+//@   mode int
+//@   prune
+//@   reveal offsetsOK
+//@   requires i != nil && tfrShape(i) && tfrCursor(i) && !i.updateBytesRead && !i.includeFreq && !i.includeNorm && !i.includeTermVectors
+//@   requires implies(i.gstarted, idNum(ID) > i.glast)
+//@   modifies i.segmentOffset, i.currID, i.currPosting, i.gstarted, i.glast, segment.PostingsIterator.pstarted, segment.PostingsIterator.plast, segment.PostingsIterator.pdone, fields(index.TermFieldDoc), mem(byte)
+//@   at return: ghost i.gstarted = i.gstarted || (result1 == nil && result0 != nil)
+//@   at return: ghost i.glast = ite(result1 == nil && result0 != nil, idNum(result0.ID), i.glast)
+//@   ensures implies(result1 == nil, tfrShape(i) && tfrCursor(i))
+//@   ensures implies(result1 == nil && result0 != nil, i.gstarted && i.glast == idNum(result0.ID)) && implies(result0 == nil, i.gstarted == old(i.gstarted) && i.glast == old(i.glast))
+//@   ensures implies(result1 == nil && result0 != nil, idNum(result0.ID) >= idNum(ID) && implies(old(i.gstarted), idNum(result0.ID) > old(i.glast)))
